@@ -1878,6 +1878,14 @@ impl Tree {
 		self.core.commit_pipeline.set_seq_num(max_seq_num);
 		self.core.commit_pipeline.reset_oracle_for_restore(max_seq_num);
 
+		// The restored levels arrived behind the back of the flush task, which is
+		// what normally hands over to compaction: a checkpoint whose level 0 is at
+		// the write-stall threshold would leave every writer waiting for a
+		// compaction nobody started.
+		if let Some(task_manager) = self.core.task_manager.lock().unwrap().as_ref() {
+			task_manager.wake_up_level();
+		}
+
 		Ok(metadata)
 	}
 
